@@ -4,6 +4,8 @@ from common import Scenario
 from bt_impl import spec_str, spec_nodes
 
 KEYS = ["/a", "/b", "/c", "/ns/d"]
+OBJ_KEY = "/o"      # only ever holds attribute-bag objects: nested writers (set / StatusToBlackboard) target it
+OBJ_VALS = ["o{p=i:1}", "o{p=i:2,q=o{r=i:0}}", "o{q=o{r=i:0}}", "o{q=o{r=i:1},p=b:1}"]
 VALS = ["i:0", "i:1", "i:2", "b:1", "b:0", "s:S", "s:F", "s:R", "n", "t:x", "o{p=i:1}", "o{p=i:2,q=o{r=s:S}}",
         "o{q=o{r=i:0}}"]
 PATHS = ["-", "-", "-", "p", "q.r", "q", "zz"]
@@ -82,7 +84,7 @@ class TreeGen(object):
         elif kind == "timer":
             k = ["timer", rng.choice([0, 1, 2, 3])]
         elif kind in ("cex", "wf"):
-            k = [kind, rng.choice(KEYS), rng.choice(PATHS)]
+            k = [kind, rng.choice(KEYS + [OBJ_KEY]), rng.choice(PATHS + ["st", "q.st"])]
         elif kind in ("cv", "wv"):
             k = [kind] + self.check()
         elif kind == "cvs":
@@ -97,11 +99,18 @@ class TreeGen(object):
             # nested writes only onto attribute-bag objects are modelled (Python also allows setattr on enum
             # members, mutating them process-wide): tree-family writers use plain keys, nested writes live in the
             # blackboard family
-            k = ["set", rng.choice(KEYS), "-", self.val(), rng.choice("01")]
+            r = rng.random()
+            if r < 0.2:
+                k = ["set", OBJ_KEY, "-", rng.choice(OBJ_VALS), rng.choice("01")]
+            elif r < 0.45:
+                k = ["set", OBJ_KEY, rng.choice(["p", "q.r", "q.zz", "zz.r", "w"]), rng.choice(["i:0", "i:7", "b:1", "n"]),
+                     rng.choice("01")]
+            else:
+                k = ["set", rng.choice(KEYS), "-", self.val(), rng.choice("01")]
         elif kind == "unset":
             k = ["unset", rng.choice(KEYS)]
         else:
-            k = ["b2s", rng.choice(KEYS), rng.choice(["-", "-", "q.r"])]
+            k = rng.choice([["b2s", rng.choice(KEYS), rng.choice(["-", "-", "q.r"])], ["b2s", OBJ_KEY, rng.choice(["st", "q.st"])]])
         return ("L", nid, k)
 
     def check(self, simple=False):
@@ -128,6 +137,8 @@ class TreeGen(object):
         if k == "oneshot":
             return "oneshot:" + rng.choice("01")
         if k == "s2b":
+            if rng.random() < 0.35:
+                return "s2b:%s:%s" % (OBJ_KEY, rng.choice(["st", "q.st", "zz.st"]))
             return "s2b:%s:-" % rng.choice(KEYS)
         return k
 
@@ -207,10 +218,13 @@ def gen_ops(rng, prof, spec):
         if r < prof.p_stop and ops:
             ops.append("stop %d" % spec[1])
         elif r < prof.p_stop + prof.p_poke:
-            if rng.random() < 0.7:
+            x = rng.random()
+            if x < 0.55:
                 ops.append("setbb %s %s" % (rng.choice(KEYS), rng.choice(VALS)))
+            elif x < 0.75:
+                ops.append("setbb %s %s" % (OBJ_KEY, rng.choice(OBJ_VALS)))
             else:
-                ops.append("unsetbb %s" % rng.choice(KEYS))
+                ops.append("unsetbb %s" % rng.choice(KEYS + [OBJ_KEY]))
         else:
             now += rng.choice([0, 1, 1, 2, 3])
             ops.append(gen_tick(rng, prof, spec, now))
